@@ -100,7 +100,20 @@ def _case(ch):
 
     body = items("top", 3, False, False)
     if ch.int(0, 3) == 0:
-        lead = ch.pick([["g", "prepare_all", []], ["sub", None, [gate()]], ["loop", 2, ["seq", [["sub", None, []]]]], ["seq", [["g", "prepare_all", []], gate()]], ["seq", []], ["loop", 1, ["seq", [["g", "prepare_all", []]]]]])
+        lead = ch.pick(
+            [
+                ["g", "prepare_all", []],
+                ["sub", None, [gate()]],
+                ["loop", 2, ["seq", [["sub", None, []]]]],
+                ["seq", [["g", "prepare_all", []], gate()]],
+                ["seq", []],
+                ["loop", 1, ["seq", [["g", "prepare_all", []]]]],
+                ["seq", [["par", []], ["g", "prepare_all", []]]],
+                ["par", [["seq", []], ["g", "prepare_all", []]]],
+                ["loop", 0, ["seq", [["par", []], ["sub", None, []]]]],
+                ["par", [["g", "prepare_all", []]]],
+            ]
+        )
         body = [lead] + body
     return {"lets": lets, "reg": [rname, rsize], "body": body, "oo_seed": ch.int(0, 10**6)}
 
@@ -237,10 +250,19 @@ def build_oo(prog, seed):
         return x
 
     def fill(bb, stmts):
+        prev = None
         for s in stmts:
             if s[0] == "g":
-                bb.gate(s[1], *[arg(a) for a in s[2]])
-            elif s[0] in ("seq", "par"):
+                # no_duplicate only drops a gate identical to the entry right before it: when the
+                # previous entry is anything else it must make no difference
+                if prev is not None and prev != s and ch.bool():
+                    bb.gate(s[1], *[arg(a) for a in s[2]], no_duplicate=True)
+                else:
+                    bb.gate(s[1], *[arg(a) for a in s[2]])
+                prev = s
+                continue
+            prev = s
+            if s[0] in ("seq", "par"):
                 fill(bb.block(parallel=(s[0] == "par")), s[1])
             elif s[0] == "loop":
                 inner = SequentialBlockBuilder()
